@@ -407,4 +407,89 @@ def WF (args : List Arg) : Prop :=
 def GcnoConsistent (as : List Art) : Prop :=
   ∀ x ∈ as.filterMap gcnoKeyCid, ∀ y ∈ as.filterMap gcnoKeyCid, x.1 = y.1 → x.2 = y.2
 
+/-! ## Classification of the command-line arguments (producer.rs 497-533)
+
+`Arg` above is an argument AFTER classification. The code decides, per argument string:
+`path.ends_with(".zip")` – a byte-suffix test on the whole argument string, case sensitive, before
+the file system is looked at – ⇒ zip archive (`open_archive`: panics when the file cannot be opened
+or is not a zip, e.g. a DIRECTORY called `x.zip`); otherwise `full_path.is_dir()` ⇒ directory;
+otherwise `Path::extension` of the (absolute) path must be one of `info json xml profraw profdata`
+⇒ plain file; any other extension (also `ZIP`, `jar`) ⇒ panic "Cannot load file … it isn't a .info,
+a .json or a .xml file"; no extension ⇒ panic "… it isn't a directory, a .info, a .json or a .xml
+file". The file-system facts are parameters. -/
+
+def bDotZip : Name := [46, 122, 105, 112]    -- .zip
+
+/-- `str::ends_with` -/
+def endsWith (s suf : Name) : Bool := suf.isSuffixOf s
+
+inductive ArgClass
+  | zip | dir | plain
+  | panicBadExt   -- "Cannot load file …: it isn't a .info, a .json or a .xml file."
+  | panicNoExt    -- "Cannot load file …: it isn't a directory, a .info, a .json or a .xml file."
+deriving DecidableEq, Repr
+
+/-- what `Path::extension` of a non-directory argument means (lines 516-533) -/
+def extClass (full : Name) : ArgClass :=
+  match splitExt full with
+  | some (_, e) =>
+    if e = bInfo || e = bJson || e = bXml || e = bProfraw || e = bProfdata then .plain
+    else .panicBadExt
+  | none => .panicNoExt
+
+/-- `path`: the argument string; `full`: `current_dir.join(path)` (the argument itself when it is
+absolute); `isDir`: `full_path.is_dir()` -/
+def classifyArg (path full : Name) (isDir : Bool) : ArgClass :=
+  if endsWith path bDotZip then .zip
+  else if isDir then .dir
+  else extClass full
+
+/-- a command-line argument with the file-system facts `producer()` consults -/
+structure RawArg where
+  label : Nat
+  /-- the argument string -/
+  path : Name
+  /-- the absolute path the code works with -/
+  full : Name
+  isDir : Bool
+  /-- `File::open` + `ZipArchive::new` succeed (only looked at when the string ends in `.zip`) -/
+  zipOk : Bool
+  /-- the entries (zip), the files below it (directory) -/
+  files : List File
+  /-- the file itself (plain argument): absolute path, head, content id -/
+  self : File
+deriving DecidableEq, Repr
+
+inductive ArgPanic
+  | zipOpen      -- "Failed to open ZIP file" / "Failed to parse ZIP file"
+  | badExt
+  | noExt
+deriving DecidableEq, Repr
+
+/-- one iteration of the `for path in paths` loop -/
+def RawArg.toArg (r : RawArg) : Except ArgPanic Arg :=
+  match classifyArg r.path r.full r.isDir with
+  | .zip => if r.zipOk then .ok (.zip r.label r.files) else .error .zipOpen
+  | .dir => .ok (.dir r.label r.files)
+  | .plain => .ok (.plain r.self)
+  | .panicBadExt => .error .badExt
+  | .panicNoExt => .error .noExt
+
+/-- the loop: the first argument that panics decides -/
+def classifyAll : List RawArg → Except ArgPanic (List Arg)
+  | [] => .ok []
+  | r :: rs =>
+    match r.toArg with
+    | .error e => .error e
+    | .ok a =>
+      match classifyAll rs with
+      | .error e => .error e
+      | .ok as => .ok (a :: as)
+
+/-- `producer()` from the raw arguments -/
+def runRaw (o : Opts) (raws : List RawArg) : Except ArgPanic Outcome :=
+  match classifyAll raws with
+  | .error e => .error e
+  | .ok args => .ok (run o args)
+
 end Grcov.Producer
